@@ -20,6 +20,9 @@ Pause == 3        \* a pause longer than the short limit
 \*   nomod  module page missing                  (early exit)
 \*   bad    module chunk fails to load           (early exit)
 \*   spin   endless loop                         (stopped at its deadline)
+\*   nmspin / nfspin / nbspin  a module that first makes a NESTED #invoke (frame:preprocess) of a
+\*          missing module / missing function / non-compiling module and then loops for ever:
+\*          the failed nested invocation must not disturb the limit of the outer one
 \*   pause  the caller waits (no Lua)
 EarlyExit == {"nofn", "nomod", "bad"}
 
@@ -39,7 +42,7 @@ StepResult(s, st) ==
               IF a.now > a.deadline
               THEN [out |-> "timeout", s |-> [a EXCEPT !.armed = FALSE]]            \* spurious
               ELSE [out |-> "value", s |-> [a EXCEPT !.armed = FALSE]]
-         [] st.k = "spin" ->
+         [] st.k \in {"spin", "nmspin", "nfspin", "nbspin"} ->
               \* runs until the clock passes the deadline in force
               IF a.deadline >= a.now
               THEN [out |-> IF a.deadline = s.now + st.lim THEN "timeout-in-bound" ELSE "timeout-late",
@@ -52,6 +55,6 @@ Outcomes(sess) == Run(sess, 1, S0)
 
 \* what the property demands of each step, independent of what came before
 Demanded(st) == CASE st.k = "pause" -> "paused" [] st.k \in EarlyExit -> "error"
-                  [] st.k = "heavy" -> "value" [] st.k = "spin" -> "timeout-in-bound"
+                  [] st.k = "heavy" -> "value" [] st.k \in {"spin", "nmspin", "nfspin", "nbspin"} -> "timeout-in-bound"
 MeetsDemand(sess) == Outcomes(sess) = [i \in 1..Len(sess) |-> Demanded(sess[i])]
 =============================================================================
